@@ -177,7 +177,21 @@ func runC18(c *Ctx) {
 		p := &parsers[i]
 		for k := 0; k < c.N(6, 120); k++ {
 			w := p.Gen(r)
-			if p.Name == "ReadMapping" && k%2 == 0 {
+			if (p.Name == "ReadMapping" || p.Name == "ReadRouterAddress") && k%3 == 1 {
+				// many pairs (thresholds at 8/16/32 entries are common), in arbitrary wire order
+				kvs := []KV{{[]byte("host"), []byte("192.0.2.7")}, {[]byte("port"), []byte("1234")}, {[]byte("caps"), []byte("BC")}}
+				for n := 17 + r.Intn(30); len(kvs) < n; {
+					kvs = append(kvs, KV{[]byte(fmt.Sprintf("opt%d", len(kvs)*7919%1000)), r.Bytes(r.Intn(5))})
+				}
+				for a := len(kvs) - 1; a > 0; a-- {
+					b := r.Intn(a + 1)
+					kvs[a], kvs[b] = kvs[b], kvs[a]
+				}
+				w = encodeMapping(kvs)
+				if p.Name == "ReadRouterAddress" {
+					w = RouterAddrV{Cost: 3, Style: []byte("SSU2"), Opts: kvs}.Encode()
+				}
+			} else if p.Name == "ReadMapping" && k%2 == 0 {
 				// unsorted but well-formed mappings (a parsed value keeps the wire order)
 				kvs := genKVs(r, 6)
 				for a := len(kvs) - 1; a > 0; a-- {
